@@ -716,6 +716,27 @@ func TestVerifC11(t *testing.T) {
 	var pool [][]byte // inputs that parse (strictly or via lax) as exactly one certificate: pieces for the concatenation law
 	var poolInner []string
 	var poolLax []bool
+	oneTBS := func(tbs []byte, class string) {
+		out.Count("class:tbs-" + class)
+		to := c11Call(func() (interface{}, error) { return ParseTBSCertificate(tbs) })
+		check("ParseTBSCertificate", tbs, to)
+		var tc tbsCertificate
+		trest, terr := asn1.Unmarshal(tbs, &tc)
+		tlax := false
+		if terr != nil {
+			tc = tbsCertificate{}
+			trest, terr = asn1.UnmarshalWithParams(tbs, &tc, "lax")
+			tlax = true
+		}
+		if terr != nil {
+			out.T("env tbs "+verifkit.Hex(tbs), "fatal")
+			out.T("ptbs "+verifkit.Hex(tbs)+" -", to.String())
+			return
+		}
+		out.T("env tbs "+verifkit.Hex(tbs), c11EnvAnswer(&tc, tc.Raw, tlax, trest))
+		ti, _ := c11InnerClass(&certificate{Raw: tc.Raw, TBSCertificate: tc})
+		out.T("ptbs "+verifkit.Hex(tbs)+" "+ti, to.String())
+	}
 	oneCert := func(der []byte, class string) {
 		out.Count("class:" + class)
 		hx := verifkit.Hex(der)
@@ -769,25 +790,13 @@ func TestVerifC11(t *testing.T) {
 				poolInner = append(poolInner, inner)
 				poolLax = append(poolLax, laxed)
 			}
-			// the TBS alone
-			tbs := parsed.RawTBSCertificate
-			to := c11Call(func() (interface{}, error) { return ParseTBSCertificate(tbs) })
-			check("ParseTBSCertificate", tbs, to)
-			if ok {
-				// inner result for the TBS-only envelope
-				var tc tbsCertificate
-				trest, terr := asn1.Unmarshal(tbs, &tc)
-				tlax := false
-				if terr != nil {
-					tc = tbsCertificate{}
-					trest, terr = asn1.UnmarshalWithParams(tbs, &tc, "lax")
-					tlax = true
-				}
-				if terr == nil {
-					out.T("env tbs "+verifkit.Hex(tbs), c11EnvAnswer(&tc, tc.Raw, tlax, trest))
-					ti, _ := c11InnerClass(&certificate{Raw: tc.Raw, TBSCertificate: tc})
-					out.T("ptbs "+verifkit.Hex(tbs)+" "+ti, to.String())
-				}
+			oneTBS(parsed.RawTBSCertificate, class)
+			if r.Intn(6) == 0 {
+				oneTBS(append(append([]byte(nil), parsed.RawTBSCertificate...), r.Bytes(1+r.Intn(3))...), class+"-trailing")
+			}
+			if r.Intn(4) == 0 {
+				m, _ := c11Mutate(r, parsed.RawTBSCertificate)
+				oneTBS(m, class+"-tbs-mutated")
 			}
 		}
 		check("ParseCertificates", der, c11Call(func() (interface{}, error) {
@@ -847,6 +856,9 @@ func TestVerifC11(t *testing.T) {
 	// ---- (a) testdata + mutations
 	for _, c := range corpus.certs {
 		oneCert(c, "testdata")
+		if r.Intn(8) == 0 {
+			oneCert(append(append([]byte(nil), c...), [][]byte{{0}, {5, 0}, {0x30, 0}, {0xff, 0xff, 0xff}}[r.Intn(4)]...), "trailing")
+		}
 	}
 	base := append(append([][]byte(nil), corpus.certs...), generated...)
 	nMut := verifkit.N(700, 30000)
